@@ -445,10 +445,20 @@ impl WorkerCtx {
         S: Strategy,
         S::Value: Serialize + Debug + Clone,
     {
+        if let Ok(only) = std::env::var("VERIF_ONLY") {
+            if !only.split(',').any(|v| v == variant) {
+                return;
+            }
+        }
+        if !self.stats.failures.is_empty() && self.stats.failures.len() >= 3 {
+            return;
+        }
         let cases = self.share(total);
         if cases == 0 {
             return;
         }
+        let t_variant = Instant::now();
+        let _guard = VariantTimer { name: variant.to_string(), t: t_variant, verbose: std::env::var("VERIF_TIMING").is_ok() && self.worker == 0 };
         let cfg = Config {
             cases: cases as u32,
             failure_persistence: None,
@@ -536,6 +546,19 @@ impl WorkerCtx {
         (0..n)
             .map(|_| strat.new_tree(&mut runner).expect("strategy").current())
             .collect()
+    }
+}
+
+struct VariantTimer {
+    name: String,
+    t: Instant,
+    verbose: bool,
+}
+impl Drop for VariantTimer {
+    fn drop(&mut self) {
+        if self.verbose {
+            eprintln!("[timing] worker 0 variant {} took {:.1}s", self.name, self.t.elapsed().as_secs_f64());
+        }
     }
 }
 
